@@ -123,6 +123,11 @@ type sender struct {
 	// 发送窗口大小，单位是字节
 	sndWnd seqnum.Size
 
+	// sndWl1 and sndWl2 are the sequence and acknowledgement numbers of the
+	// segment sndWnd was last taken from (SND.WL1, SND.WL2 of RFC 793).
+	sndWl1 seqnum.Value
+	sndWl2 seqnum.Value
+
 	// sndUna is the next unacknowledged sequence number.
 	// sndUna 是下一个未确认的序列号
 	sndUna seqnum.Value
@@ -217,6 +222,8 @@ func newSender(ep *endpoint, iss, irs seqnum.Value, sndWnd seqnum.Size, mss uint
 		sndCwnd:          InitialCwnd,
 		sndSsthresh:      math.MaxInt64,
 		sndWnd:           sndWnd,
+		sndWl1:           irs,
+		sndWl2:           iss,
 		sndUna:           iss + 1,
 		sndNxt:           iss + 1,
 		sndNxtList:       iss + 1,
@@ -737,13 +744,21 @@ func (s *sender) handleRcvdSegment(seg *segment) {
 
 	// Stash away the current window size.
 	// 存放当前窗口大小。
-	if s.sndWnd == 0 && seg.window != 0 && s.sndUna == s.sndNxt {
-		// The window reopened while the persist timer was pending: the
-		// data sent below must be timed by the retransmission timeout.
-		s.persistShift = 0
-		s.resendTimer.disable()
+	// The window is only taken from a segment that is not older than the
+	// one it was last taken from (RFC 793 page 72, SND.WL1 / SND.WL2): an
+	// old acknowledgement that the network delivers late or twice carries
+	// an old window and must not move the right edge.
+	if seg.ackNumber.InRange(s.sndUna, s.sndNxt.Add(1)) &&
+		(s.sndWl1.LessThan(seg.sequenceNumber) || (s.sndWl1 == seg.sequenceNumber && s.sndWl2.LessThanEq(seg.ackNumber))) {
+		if s.sndWnd == 0 && seg.window != 0 && s.sndUna == s.sndNxt {
+			// The window reopened while the persist timer was pending: the
+			// data sent below must be timed by the retransmission timeout.
+			s.persistShift = 0
+			s.resendTimer.disable()
+		}
+		s.sndWnd = seg.window
+		s.sndWl1, s.sndWl2 = seg.sequenceNumber, seg.ackNumber
 	}
-	s.sndWnd = seg.window
 
 	// Ignore ack if it doesn't acknowledge any new data.
 	// 获取确认号
